@@ -212,3 +212,10 @@ def run(P, R, tier):
     R.floor("ARGROLE", n, 25)
     from ..engines import idx as _idx
     _idx.check_class_select(P, R, "factor_analysis:FactorAnalysisBase._get_statistics_by_class_id")
+    from ..engines import dtype as _dt
+    n_dt = 0
+    for name in ("_compute_fn_x_ih", "_compute_fn_y_i", "_compute_fn_z_i", "_compute_latent_x_per_class", "_latent_y_per_class", "_latent_z_per_class", "compute_latent_x", "update_y", "update_z", "_compute_id_plus_u_prod_ih", "_compute_id_plus_vprod_i", "_compute_id_plus_d_prod_i"):
+        k_ = "factor_analysis:FactorAnalysisBase." + name
+        if P.func(k_, required=False) is not None:
+            n_dt += _dt.check_function(P, R, k_, raw_attrs=("n", "sum_px", "sum_pxx"))
+    R.floor("DTYPE.raw sites (enrolment kernels)", n_dt, 5)
